@@ -5,7 +5,7 @@ from vlib import core, semprop, proggen, semcheck
 from vlib import semgen as G
 from vlib.semgen import *
 
-HARNESS = "sem"
+HARNESS = ["sem", "c15"]
 CLAIM = dict(
     text=("Theorems (coq/props/C18.v): physical line starts (CR, LF, CRLF, LFCR) are strictly increasing and FindLineIdx returns the line "
           "containing the cursor, for every source and cursor; the LEXER's line table is that table — for every source the front-end model "
@@ -262,9 +262,69 @@ def run_planted(chk, n):
                            "display": disp})
 
 
+def run_module_chains(chk, replay=None):
+    """a fault inside a method of an imported module (at a line known by construction), reached through calls that cross module
+    borders: every entry of the displayed chain names its module, the line of ITS file, and quotes that line of that file"""
+    import tempfile
+    import shutil
+    rng = chk.rng
+    cases = []
+    if replay is not None:
+        cases = [replay["case"]]
+    else:
+        for _ in range(12 if chk.tier == "quick" else 120):
+            pad_lib = ["令填%d = %d" % (i, i) for i in range(rng.choice([0, 1, 3, 7]))]
+            pad_main = ["令垫%d = %d" % (i, i + 50) for i in range(rng.choice([0, 2, 5, 12]))]
+            fault = rng.choice(["令结果 = 甲 / 乙", "输出【1】#{甲 + 5}", "输出 无此名称 + 甲"])
+            lib = pad_lib + ["如何取商？", "    输入甲、乙", "    令备 = 1", "    " + fault, "    输出 0", ""]
+            lib_fault_line = len(pad_lib) + 4
+            inner_call = "    输出（取商：%d、0）" % rng.randrange(1, 9)
+            if rng.random() < 0.5:
+                lib += ["如何外层？", "    令先 = 2", inner_call, ""]
+                lib_call_line = len(lib) - 1
+                main_call = "令每份 = （外层）"
+                chain = [("主", None), ("库", lib_call_line), ("库", lib_fault_line)]
+            else:
+                main_call = "令每份 = （取商：%d、0）" % rng.randrange(1, 9)
+                chain = [("主", None), ("库", lib_fault_line)]
+            main = ["导入“库”"] + pad_main + [main_call, "输出每份"]
+            main_line = len(pad_main) + 2
+            chain[0] = ("主", main_line)
+            cases.append({"files": {"主.zn": "\n".join(main) + "\n", "库.zn": "\n".join(lib)}, "main": "主.zn", "chain": chain})
+    tmproot = tempfile.mkdtemp(prefix="znc18m_")
+    try:
+        outs = core.harness("c15", "run", [{"files": c["files"], "main": c["main"], "root": tmproot} for c in cases], timeout_ms=20000)
+    finally:
+        shutil.rmtree(tmproot, ignore_errors=True)
+    for c, o in zip(cases, outs):
+        chk.count(["module-chain", c["files"]])
+        chk.dist("module-chain")
+        text = o.get("errtext") or ""
+        src = {"主": c["files"]["主.zn"].split("\n"), "库": c["files"]["库.zn"].split("\n")}
+        # the display: a head line and "来自…" lines, each followed by the quoted source line
+        got = []
+        lines = text.split("\n")
+        for i, l in enumerate(lines):
+            m = re.search(r"第 (\d+) 行", l)
+            if m:
+                mod = "库" if "库" in l else "主"
+                quoted = lines[i + 1].strip() if i + 1 < len(lines) else ""
+                got.append((mod, int(m.group(1)), quoted))
+        want = [(mod, ln, src[mod][ln - 1].strip()) for mod, ln in c["chain"]]
+        if o.get("kind") != "error" or got != want:
+            chk.violation("a fault inside an imported module is reported as %s; the calls leading to it and the fault are at %s; files %s" % (
+                got, want, json.dumps(c["files"], ensure_ascii=False)[:400]), "module-chain",
+                {"kind": "module-chain", "case": c, "observed": o, "expected": want, "replay_cmd": "./check C18 --replay <this file>"})
+
+
 def run(chk, replay=None):
     rng = chk.rng
     quick = chk.tier == "quick"
+    if replay is not None and replay.get("kind") == "module-chain":
+        run_module_chains(chk, replay)
+        return
+    if replay is None:
+        run_module_chains(chk)
     if replay is not None and replay.get("kind") == "program":
         semprop.run_property(chk, "C18", "c18", [], 0, 0, replay=replay, what="reported line / call chain differs from the place the error arose")
         return
